@@ -3,6 +3,7 @@ package main
 // rules_tlex.go: the lexical grammar, decided by path enumeration of the lexer's Next over symbolic runes (ldom.go).
 
 import (
+	"fmt"
 	"go/token"
 	"go/types"
 	"sort"
@@ -12,7 +13,7 @@ import (
 )
 
 func init() {
-	register(&Rule{ID: "T-LEX", Props: []string{"C04", "C16", "C03", "C11", "C09", "C10", "C19"}, Floor: 45,
+	register(&Rule{ID: "T-LEX", Props: []string{"C04", "C16", "C03", "C11", "C09", "C10", "C19"}, Floor: 14,
 		Doc: "The lexical grammar, by path enumeration of the lexer's Next over a stream of symbolic runes (sub-scanners and helpers inlined, any source form): every token is produced for exactly its spelling (one-, two- and three-rune operators with their longest-match lookahead, numbers with optional minus, identifiers and the keywords in/let, $ and variables, and the three delimited literals whose body is any rune but the delimiter and the backslash, or a backslash followed by any rune); the token's text is exactly the runes consumed and the position moves to just after them; only white space is skipped before a token; every position is the start position plus the sizes of the runes before it (a constant step only over a rune the path has pinned to ASCII); every other rune is rejected.",
 		Run: ruleTLex})
 }
@@ -236,6 +237,50 @@ func ruleTLex(p *Program, r *Reporter) {
 	for _, w := range lexSpec {
 		if _, ok := got[w]; !ok {
 			r.Bad(fn.Pos(), "token :: "+w, "no path of the lexer produces this token of the lexical grammar")
+		}
+	}
+	// the constructor hands the text to the lexer unchanged and starts at its first byte
+	for _, cf := range p.Funcs {
+		if cf.Pkg == nil || cf.Pkg.Pkg != p.Lexer.Types || cf.Parent() != nil || cf.Signature.Recv() != nil || cf.Signature.Params().Len() != 1 || cf.Signature.Results().Len() != 1 {
+			continue
+		}
+		rt := cf.Signature.Results().At(0).Type()
+		if pt, ok := rt.(*types.Pointer); ok {
+			rt = pt.Elem()
+		}
+		if nt, ok := rt.(*types.Named); !ok || nt != d.lexerT {
+			continue
+		}
+		ce := newEngine(p, scopeDom{})
+		text := avSym{id: ce.fresh(), tag: "text"}
+		couts := ce.Run(cf, []AV{text}, newState())
+		key := "constructor lexer." + cf.Name()
+		if len(couts) != 1 || couts[0].Panic || couts[0].Cut || len(couts[0].Res) != 1 {
+			r.Bad(cf.Pos(), key, fmt.Sprintf("%d paths; expected one that stores the text", len(couts)))
+			continue
+		}
+		fields := couts[0].St.fieldsOf(couts[0].Res[0])
+		if sv, ok := couts[0].Res[0].(avStruct); ok {
+			fields = sv.f
+		}
+		nText, bad := 0, ""
+		for fname, fv := range fields {
+			if avKey(fv) == avKey(text) {
+				nText++
+				continue
+			}
+			if c, ok := fv.(avConst); ok && (c.v.ExactString() == "0" || c.v.ExactString() == `""`) {
+				continue
+			}
+			bad = "field " + fname + " is initialised to " + avKey(fv)
+		}
+		switch {
+		case nText != 1:
+			r.Bad(cf.Pos(), key, "the lexer does not start with exactly the text it was given (a trimmed, converted or copied text changes which strings compile)")
+		case bad != "":
+			r.Bad(cf.Pos(), key, bad+": the lexer must start at the first byte of the text")
+		default:
+			r.OK(cf.Pos(), key, "stores the text unchanged, position 0")
 		}
 	}
 	if wsSeen[0] && wsSeen[1] {
